@@ -8,13 +8,14 @@ import sys
 from typing import List
 
 sys.path.insert(0, os.path.dirname(os.path.dirname(os.path.dirname(os.path.abspath(__file__)))))
-from fxv.ch.c07_model import NK, NS, compatible, fixpoint_impl  # noqa: E402
+from fxv.ch.c07_model import NAMES, NK, NS, TABLE, compatible, fixpoint_impl  # noqa: E402
 
 MAXLEN = int(os.environ.get('C07_MAXLEN', '3'))
 FIRST = int(os.environ.get('C07_FIRST', '-1'))
 NCODES = NK + 2 * NS
 MINLEN = int(os.environ.get('C07_MINLEN', '2'))
 ALLOWED = [int(c) for c in os.environ.get('C07_ALLOWED', '').split(',') if c]
+NESTED = os.environ.get('C07_NESTED', '') == '1'
 
 
 def first_ok(codes):
@@ -31,14 +32,41 @@ def small(values):
     return all(-3 <= v <= 3 and v != 0 for v in values)
 
 
-def _normal_form(codes: List[int], values: List[int]) -> bool:
-    """
-    pre: MINLEN <= len(codes) <= MAXLEN
-    pre: len(values) == len(codes)
-    pre: in_range(codes)
-    pre: first_ok(codes)
-    pre: compatible(codes)
-    pre: small(values)
-    post: _
-    """
-    return fixpoint_impl(codes, values)
+if not NESTED:
+    def _normal_form(codes: List[int], values: List[int]) -> bool:
+        """
+        pre: MINLEN <= len(codes) <= MAXLEN
+        pre: len(values) == len(codes)
+        pre: in_range(codes)
+        pre: first_ok(codes)
+        pre: compatible(codes)
+        pre: small(values)
+        post: _
+        """
+        return fixpoint_impl(codes, values)
+
+
+# ---- nested form: FIRST, p, q, Y [, Z] where p @ q is a pattern that vanishes (indices into concrete lists are symbolic) ----------
+VANISHING = [list(k) for k, v in TABLE.items() if v == [] and (not ALLOWED or (k[0] in ALLOWED and k[1] in ALLOWED))]
+TAILS = list(ALLOWED) if ALLOWED else list(range(NCODES))
+
+
+def nested_impl(ip, iy, iz, v0, v1):
+    chain = [FIRST, VANISHING[ip][0], VANISHING[ip][1], TAILS[iy]]
+    if iz >= 0:
+        chain.append(TAILS[iz])
+    if not compatible(chain):
+        return True
+    return fixpoint_impl(chain, [v0, 1, 1, v1, 2][:len(chain)])
+
+
+if NESTED:
+    def _nested_form(ip: int, iy: int, iz: int, v0: int, v1: int) -> bool:
+        """
+        pre: 0 <= ip < len(VANISHING)
+        pre: 0 <= iy < len(TAILS)
+        pre: -1 <= iz < len(TAILS)
+        pre: 1 <= v0 <= 2 and 1 <= v1 <= 2
+        post: _
+        """
+        return nested_impl(ip, iy, iz, v0, v1)
